@@ -504,6 +504,10 @@ func (vc *W3CCredential) ToCoreClaim(ctx context.Context, opts *CoreClaimOptions
 		}
 	}
 
+	// work on a copy: the caller's options must not be modified
+	optsCopy := *opts
+	opts = &optsCopy
+
 	mz, err := vc.Merklize(ctx, opts.MerklizerOpts...)
 	if err != nil {
 		return nil, err
